@@ -20,13 +20,21 @@ const (
 
 type messageSet []byte
 
-func entriesForMessageSet(basePos int64, ms []byte) []*entry {
+// entriesForMessageSet computes the index entries for the given message set
+// data. Since the data may originate from the network (e.g. when replicating
+// from the partition leader), every header is validated against the remaining
+// data. ErrInvalidMessageSet is returned if the data is truncated or otherwise
+// malformed.
+func entriesForMessageSet(basePos int64, ms []byte) ([]*entry, error) {
 	entries := []*entry{}
 	if len(ms) <= msgSetHeaderLen {
-		return entries
+		return nil, ErrInvalidMessageSet
 	}
 	var n int64
 	for len(ms) > 0 {
+		if len(ms) < msgSetHeaderLen {
+			return nil, ErrInvalidMessageSet
+		}
 		var (
 			relPos      = n
 			m           = messageSet(ms)
@@ -35,6 +43,9 @@ func entriesForMessageSet(basePos int64, ms []byte) []*entry {
 			leaderEpoch = m.LeaderEpoch()
 			size        = m.Size()
 		)
+		if size < 0 || int64(size) > int64(len(ms)-msgSetHeaderLen) {
+			return nil, ErrInvalidMessageSet
+		}
 		entries = append(entries, &entry{
 			Offset:      offset,
 			Timestamp:   timestamp,
@@ -43,9 +54,9 @@ func entriesForMessageSet(basePos int64, ms []byte) []*entry {
 			Size:        size + msgSetHeaderLen,
 		})
 		n += msgSetHeaderLen + int64(size)
-		ms = ms[msgSetHeaderLen+size:]
+		ms = ms[msgSetHeaderLen+int(size):]
 	}
-	return entries
+	return entries, nil
 }
 
 func newMessageSetFromProto(baseOffset, basePos int64, msgs []*Message, concurrencyControl bool) (
